@@ -98,7 +98,7 @@ func init() {
 			Fields: []string{}, Calls: []string{"GetHooksInOrder", "GetHookNames", "HasBinding", "AddLast", "NewNamedQueue", "NewTask"}},
 		skelTarget{Name: "ShellOperator.taskHandleEnableKubernetesBindings", File: "pkg/shell-operator/operator.go", Recv: "ShellOperator", Func: "taskHandleEnableKubernetesBindings",
 			Fields: []string{"HeadTasks", "Status"}, Calls: []string{"HandleEnableKubernetesBindings", "NewTask", "WithQueueName"}},
-		skelTarget{Name: "ShellOperator.taskHandleHookRun", File: "pkg/shell-operator/operator.go", Recv: "ShellOperator", Func: "taskHandleHookRun",
+		skelTarget{Name: "C06.taskHandleHookRun", File: "pkg/shell-operator/operator.go", Recv: "ShellOperator", Func: "taskHandleHookRun",
 			Fields: []string{"Status", "ExecuteOnSynchronization", "Version", "Group", "AllowFailure", "MonitorIDs", "BindingContext"},
 			Calls:  []string{"IsSynchronization", "combineBindingContextForHook", "handleRunHook", "UnlockKubernetesEventsFor", "UpdateMetadata", "RateLimitWait"}},
 	)
